@@ -35,14 +35,15 @@ CFG = dict(
     sig=c10_sig,
     rule=("every token vector of length <= 4 over a 16-token alphabet (two bool flags, -b=false, empty values, values that look "
           "like flags, '-', '--', '---s', '-=v', unknown/unparsable), every vector of length <= 2 over a "
-          "33-token alphabet (thorough: <= 5 resp. <= 3), every flag with every value of its kind in the four spellings and repeated, and seeded "
+          "39-token alphabet (adds names with '-', '.', non-ASCII and non-UTF-8 bytes) (thorough: <= 5 resp. <= 3), every flag with every value of its kind in the four spellings and repeated, and seeded "
           "grammar-aware random vectors incl. arbitrary byte tokens; a fresh struct + FlagSet per vector, all in one process; "
           "non-trivial = distinct vectors"),
     trusted_base=[HARNESS_TB, EXTRACT_TB,
                   "Lib/ArgGrammar.v is my reading of the documented grammar (package comment, argParse doc comment, flag-package conventions)",
                   "value errors: Model/FlagValue.v models strconv.ParseBool/ParseInt/ParseUint (no '_'), time.ParseDuration (no '.'), "
                   "base64.StdEncoding (no CR/LF); texts outside (all float64 texts) are judged leniently (either outcome accepted)"],
-    assumptions=["strconv.IntSize = 64", "no -config file exists in the harness's empty working directory, so a non-empty -config must fail"],
+    assumptions=["strconv.IntSize = 64", "what a non-empty -config does is C09's business: C10 vectors never carry one (and the check is lenient if they do)",
+                 "the verdict distinguishes nil / error / PANIC only; message prefix and carried text refine byte drift"],
 )
 CFG["manifest"] = dict(
     text=("Proof: C10_grammar — for every flag table and every token vector over arbitrary bytes the statement-by-statement model of "
